@@ -7,6 +7,7 @@ import (
 
 	plush "github.com/gobuffalo/plush/v5"
 
+	"verifharness/c06"
 	"verifharness/gen"
 	"verifharness/vrt"
 )
@@ -384,6 +385,7 @@ func TwoPositions() {
 // are the tolerated unknown identifier)
 func init() {
 	vrt.Register("C05_generated_faults", GeneratedFaults)
+	vrt.Register("C05_regex_errors", func() { c06.RegexPatterns("a failing operation fails the render (~=)") })
 }
 
 func GeneratedFaults() {
